@@ -41,20 +41,35 @@ func stepPool(n int64) []*int64 {
 
 var mixedRunes = []rune{'a', 'é', '€', '😀', 'b', 'ü', '́', '�', 'z', '中'}
 
+// the grammar's number is ["-"] 1*digit: leading zeros and a negative zero are legal spellings
+func spellInt(v int64) string {
+	t := strconv.FormatInt(v, 10)
+	if rng.Intn(6) != 0 {
+		return t
+	}
+	if v == 0 {
+		return pick([]string{"-0", "00", "-00", "000"})
+	}
+	if v < 0 {
+		return "-" + pick([]string{"0", "00"}) + t[1:]
+	}
+	return pick([]string{"0", "00"}) + t
+}
+
 func sliceText(start, stop, step *int64, withStepColon bool) string {
 	var b strings.Builder
 	b.WriteByte('[')
 	if start != nil {
-		b.WriteString(strconv.FormatInt(*start, 10))
+		b.WriteString(spellInt(*start))
 	}
 	b.WriteByte(':')
 	if stop != nil {
-		b.WriteString(strconv.FormatInt(*stop, 10))
+		b.WriteString(spellInt(*stop))
 	}
 	if step != nil || withStepColon {
 		b.WriteByte(':')
 		if step != nil {
-			b.WriteString(strconv.FormatInt(*step, 10))
+			b.WriteString(spellInt(*step))
 		}
 	}
 	b.WriteByte(']')
